@@ -242,7 +242,11 @@ vbi_pfc_demux_feed		(vbi_pfc_demux *	dx,
 			goto desynced;
 
 		if (pgno != dx->block.pgno) {
-			dx->n_packets = 0;
+			/* Another page of our magazine terminates
+			   our page. Headers of other magazines are
+			   unrelated (parallel page transmission). */
+			if (0 == ((pgno ^ dx->block.pgno) & 0xF00))
+				dx->n_packets = 0;
 			return TRUE;
 		}
 
